@@ -502,6 +502,31 @@ Proof.
   destruct (ww_firepc x) as [[|]|]; try exact H. apply remove_ref_chain. apply (InvCh_ext s); auto.
 Qed.
 
+(* the step of a parked watcher goroutine touches one consumer record: its context flag and its parked watchers *)
+Lemma watch_step_spec s c :
+  watch_step s c = s \/
+  exists x y, nth_error (conss s) c = Some x /\ watch_step s c = setc s c y /\
+    ck y = ck x /\ cref y = cref x /\ ccanc y = ccanc x /\ cpcv y = cpcv x /\ cw_res y = cw_res x /\ ww_res y = ww_res x /\
+    ww_nonce y = ww_nonce x /\ ww_prom y = ww_prom x /\ ww_once y = ww_once x /\ ww_fired y = ww_fired x /\ ww_firepc y = ww_firepc x /\
+    ac_val y = ac_val x /\ ac_err y = ac_err x /\ ac_res y = ac_res x /\ ac_nonce y = ac_nonce x /\ ac_snap y = ac_snap x /\
+    ((ac_wstale x = S (ac_wstale y) /\ ac_cbcanc y = ac_cbcanc x /\ ac_wpark y = ac_wpark x) \/
+     (ac_wstale x = 0 /\ ac_wstale y = 0 /\ ac_wpark x = true /\ ac_wpark y = false /\ ac_cbcanc y = true)).
+Proof.
+  unfold watch_step. destruct (nth_error (conss s) c) as [x|] eqn:Ex; [|now left].
+  destruct (ac_wstale x) as [|k] eqn:Ek; [destruct (ac_wpark x) eqn:Ew; [|now left]|]; right; eexists x, _; (split; [reflexivity|]); (split; [reflexivity|]);
+    cbn [ck cref ccanc cpcv cw_res ww_res ww_nonce ww_prom ww_once ww_fired ww_firepc ac_val ac_err ac_res ac_nonce ac_snap ac_cbcanc ac_wpark ac_wstale];
+    rewrite ?Ek, ?Ew; repeat (split; [reflexivity|]); [right | left]; auto.
+Qed.
+
+Ltac wsplit H := destruct H as [Wck [Wcref [Wccanc [Wcpcv [Wcw [Wwres [Wwnonce [Wwprom [Wwonce [Wwfired [Wwfirepc [Waval [Waerr [Wares [Wanonce [Wasnap Wwatch]]]]]]]]]]]]]]]].
+
+Lemma rest_watch_step s c : rest (watch_step s c) = rest s.
+Proof. destruct (watch_step_spec s c) as [->|[x [y [_ [-> _]]]]]; [reflexivity | apply rest_setc]. Qed.
+Lemma refs_watch_step s c : refs (watch_step s c) = refs s.
+Proof. destruct (watch_step_spec s c) as [->|[x [y [_ [-> _]]]]]; [reflexivity | apply refs_setc]. Qed.
+Lemma asyncs_watch_step s c : asyncs (watch_step s c) = asyncs s.
+Proof. destruct (watch_step_spec s c) as [->|[x [y [_ [-> _]]]]]; reflexivity. Qed.
+
 Lemma step_chain s e : InvCh s -> InvCh (step repaired s e).
 Proof.
   intros H. destruct e; cbn [step].
@@ -520,6 +545,7 @@ Proof.
   - now apply fire_section_chain.
   - now apply cb_return_chain.
   - destruct (Nat.eqb c 0); [exact H | now apply cancel_root_chain].
+  - apply (InvCh_rest s); [apply rest_watch_step | exact H].
 Qed.
 
 Lemma init_chain k : InvCh (init k).
